@@ -134,6 +134,9 @@ impl ProofCase {
             }
         }
         let Some(final_op) = final_op else { return Ok(()) };
+        if std::env::var("VERIF_DUMP_PROOF").is_ok() {
+            eprintln!("--- proof after posting ---\n{}", std::fs::read_to_string(path).unwrap_or_default());
+        }
         let b2 = binding.clone();
         let f = move |p: &crate::ir::Pred| b2.pred(p);
         let mut br = build_brancher(&case.brancher, &solver, &binding.vars, &occ, &f);
@@ -275,6 +278,15 @@ fn check_proof(
     };
 
     let full_domains: Vec<Vec<i32>> = refm.vars.iter().map(|v| v.values.clone()).collect();
+    // every assignment of the declared domains in which the literals created for predicates
+    // have the value of their predicate
+    let space: Vec<Vec<i32>> = {
+        let mut sp = RefModel::new();
+        for v in &refm.vars {
+            sp.add_var(v.clone());
+        }
+        sp.sols
+    };
     // steps: id -> clause (as atoms); inference ids since the last nogood
     let mut steps: BTreeMap<u64, Vec<Atom>> = BTreeMap::new();
     let mut axioms: Vec<Atom> = vec![]; // objective bounds in force (conjunction)
@@ -331,9 +343,25 @@ fn check_proof(
                         if let Some(c) = concl {
                             scope.push(c.var);
                         }
+                        // a literal created for a predicate is written as that predicate in the
+                        // proof: the constraint is read together with the definitions of the
+                        // literals it mentions
+                        let mut grew = true;
+                        while grew {
+                            grew = false;
+                            for v in scope.clone() {
+                                if let Some(l) = &refm.vars[v].link {
+                                    if !scope.contains(&l.var) {
+                                        scope.push(l.var);
+                                        grew = true;
+                                    }
+                                }
+                            }
+                        }
                         scope.sort();
                         scope.dedup();
-                        if let Some(a) = assignments_over(&refm.vars, &scope).into_iter().find(|a| con.holds(a) && prem.iter().all(|p| p.holds(a)) && concl.is_none_or(|c| !c.holds(a))) {
+                        let links_hold = |a: &Vec<i32>| scope.iter().all(|v| refm.vars[*v].link.as_ref().is_none_or(|l| (a[*v] == 1) == l.holds(a)));
+                        if let Some(a) = assignments_over(&refm.vars, &scope).into_iter().find(|a| links_hold(a) && con.holds(a) && prem.iter().all(|p| p.holds(a)) && concl.is_none_or(|c| !c.holds(a))) {
                             return e(
                                 "H-PROOF:inference-does-not-follow-from-its-constraint",
                                 format!("line {}: inference {} tagged with constraint #{} {} is refuted by the assignment {a:?}", ln + 1, show(), tg - 1, con.to_json().to_string()),
@@ -351,12 +379,12 @@ fn check_proof(
                             if let Some((obj, minimise)) = objective {
                                 // the strengthening step: (not premise) is "objective strictly
                                 // better than an incumbent the harness saw"
-                                if prem.len() == 1 && concl.is_none() && prem[0].var == obj.var {
+                                if prem.len() == 1 && concl.is_none() {
                                     let clause = prem[0].negate();
                                     for inc in incumbents {
                                         let v = obj.eval(inc);
                                         let better = |x: i128| if minimise { x < v } else { x > v };
-                                        if refm.vars[obj.var].values.iter().all(|x| clause.holds_value(*x) == better(obj.eval_value(*x))) {
+                                        if space.iter().all(|a| clause.holds(a) == better(obj.eval(a))) {
                                             accepted = true;
                                         }
                                     }
@@ -497,19 +525,26 @@ fn check_proof(
             let (obj, minimise) = objective.unwrap();
             let opt = optimal.unwrap();
             let best = refm.sols.iter().map(|s| obj.eval(s)).reduce(|x, y| if minimise == (y < x) { y } else { x });
-            if a.var != obj.var {
-                return e("H-PROOF:bound-over-wrong-variable", format!("the optimality conclusion {} is not over the objective variable x{}", a.show(), obj.var));
-            }
+            // The conclusion is a bound on the objective whose constant is the optimum. The
+            // solver writes [objective <= optimum] in both directions (the bound that was reached
+            // when minimising, the dual bound when maximising); which of the two a conclusion
+            // should be is not what this check judges. The literal may be written over another
+            // variable than the objective's (a literal created for a predicate is written as
+            // that predicate), so the bound is judged by what it says: it holds in the optimal
+            // solution, and among everything that satisfies it the optimum is an extreme value
+            // of the objective.
             if !a.holds(opt) {
                 return e("H-PROOF:bound-excludes-the-optimal-solution", format!("the optimality conclusion {} does not hold in the returned solution {opt:?}", a.show()));
             }
-            // the constant is the optimum: the bound is tight at the optimal value of the variable
-            let tight = match a.op {
-                0 | 2 | 1 => a.value == opt[obj.var] as i64,
-                _ => false,
-            };
-            if !tight || Some(obj.eval(opt)) != best {
-                return e("H-PROOF:bound-is-not-the-optimum", format!("the optimality conclusion {} does not state the optimum {best:?} (optimal solution {opt:?})", a.show()));
+            let best = best.expect("an optimal solution exists");
+            let admitted: Vec<i128> = space.iter().filter(|s| a.holds(s)).map(|s| obj.eval(s)).collect();
+            let lo = admitted.iter().min().copied();
+            let hi = admitted.iter().max().copied();
+            if lo != Some(best) && hi != Some(best) {
+                return e("H-PROOF:bound-is-not-the-optimum", format!("the optimality conclusion {} does not state the optimum {best}: the objective values it admits range over {lo:?}..{hi:?} (optimal solution {opt:?})", a.show()));
+            }
+            if obj.eval(opt) != best {
+                return e("H-PROOF:bound-is-not-the-optimum", format!("the returned solution {opt:?} is not optimal ({best})"));
             }
         }
     }
